@@ -45,6 +45,20 @@ def reject_kinds(tr, rng, tmpdir):
     def add(kind, detail, fn):
         ks.append((kind, str(detail)[:80], fn))
     add('undeclared.var', 'zz', lambda: b.var('zz_undeclared'))
+    # the table is FULL (`max_nodes`, a documented attribute): the operation is refused
+    # with RuntimeError somewhere in the middle; the bound is lifted again afterwards
+    room = rng.choice([0, 0, 1, 2, 3])
+
+    def full():
+        old = b.max_nodes
+        b.max_nodes = max(b._succ) + 1 + room
+        try:
+            x = rng.sample(names, min(3, len(names)))
+            f = ' # '.join('(%s /\\ ~ %s)' % (p, q) for p, q in zip(x, x[1:] + x[:1]))
+            return b.apply(rng.choice(['xor', 'and', '<=>']), u, b.add_expr(f))
+        finally:
+            b.max_nodes = old
+    add('full.table', room, full)
     add('undeclared.let_bool', 'zz', lambda: b.let({'zz_undeclared': True}, u))
     add('undeclared.let_name', 'zz', lambda: b.let({'zz_undeclared': names[0]}, u))
     add('undeclared.let_name_target', 'zz', lambda: b.let({names[0]: 'zz_undeclared'}, u))
